@@ -195,7 +195,10 @@ def history_cases(draw):
     script = []
     for _ in range(draw(st.integers(4, 12))):
         script.append([draw(st.sampled_from([0, 0, 1, 2, 2])), draw(st.sampled_from(pool)),
-                       draw(st.sampled_from(['out', 'out', 'x/y'])), bool(wl) and draw(st.booleans())])
+                       draw(st.sampled_from(['out', 'out', 'x/y'])), bool(wl) and draw(st.booleans()),
+                       # keep the compiled API description and hand the same object to the next step that
+                       # asks for the same spec (a build script running several backends on one compile)
+                       draw(st.integers(0, 3)) == 0])
     return {'api': api, 'other': other, 'whitelist': wl, 'script': script, 'seed': draw(st.integers(0, 4000))}
 
 
@@ -222,7 +225,7 @@ def run_histories(case, rec):
     for i, st_ in enumerate(script):
         key = (st_[0], st_[1], st_[3])
         if key not in fresh:
-            r, err = run_worker(dict(base_job, script=[st_]), case['seed'])
+            r, err = run_worker(dict(base_job, script=[st_[:4]]), case['seed'])
             if r is None:
                 raise core.HarnessError('C12 worker died: %s' % err)
             fresh[key] = r['steps'][0]
@@ -232,7 +235,9 @@ def run_histories(case, rec):
             ('|revision-earlier' if st_[0] in (0, 1) and any(x == 1 - st_[0] for x, _ in earlier) else '')
         rec.case(core.h64((repr(sets), repr(script[:i + 1]), repr(wl))), i >= 1,
                  classes=['hist_backend:' + st_[1], 'hist_ctx:' + ctx_kind.split('|')[0]] +
-                 (['hist_revision_earlier'] if 'revision-earlier' in ctx_kind else []) + (['hist_whitelist'] if st_[3] else []),
+                 (['hist_revision_earlier'] if 'revision-earlier' in ctx_kind else []) + (['hist_whitelist'] if st_[3] else []) +
+                 (['hist_shared_api'] if len(st_) > 4 and st_[4] and i and script[i - 1][0] == st_[0] and
+                  len(script[i - 1]) > 4 and script[i - 1][4] and script[i - 1][3] == st_[3] else []),
                  sample=lambda: {'script': script[:i + 1], 'files': [(p, t[:200]) for p, t in sets[0][:1]]})
         if steps[i] != fresh[key]:
             files = sorted(k for k in set(steps[i]) | set(fresh[key]) if steps[i].get(k) != fresh[key].get(k))
